@@ -40,7 +40,10 @@ def known_findings(prop):
                     continue
                 m = re.match(r"property=(\S+)\s+obligation=(\S+)\s*(.*)$", line)
                 if m and m.group(1) == prop:
-                    out.append((m.group(2), m.group(3)))
+                    rest = m.group(3)
+                    ms = re.search(r'site="((?:[^"\\]|\\.)*)"', rest)
+                    site = ms.group(1).replace('\\"', '"') if ms else None
+                    out.append((m.group(2), rest, site))
     except OSError:
         pass
     return out
@@ -63,6 +66,14 @@ def tags_for(R):
         q = qual(fn)
         if q.endswith("__vacuity"):
             continue
+        if q not in t:
+            # functions inside a `mod` of the unit carry the module path: match the item by its suffix
+            parts = q.split("::")
+            for k in range(1, len(parts)):
+                suf = "::".join(parts[k:])
+                if suf in t and len(parts[k:]) >= 2:
+                    t[q] = t[suf]
+                    break
         if q not in t:
             nm = q.split("::")[-1]
             t[q] = set(st["fn_props"].get(q, st["fn_props"].get(nm, st["unit_props"])))
@@ -143,6 +154,14 @@ def conclude(prop, a, cfg, results, twins, stability, kani, seed, t0):
         if missing:
             undecided.append("%s: obligations of the baseline were not generated: %s" % (u, missing))
         items_by_q = {io.qualname: io for io in R.assembled.items if io.kind == "fn"}
+        for fn_ in list(R.functions):
+            q_ = qual(fn_)
+            parts_ = q_.split("::")
+            for k_ in range(1, len(parts_)):
+                suf_ = "::".join(parts_[k_:])
+                if suf_ in items_by_q and len(parts_[k_:]) >= 2 and q_ not in items_by_q:
+                    items_by_q[q_] = items_by_q[suf_]
+                    break
         for fn, d in sorted(R.functions.items()):
             q = qual(fn)
             if q.endswith("__vacuity"):
@@ -165,17 +184,32 @@ def conclude(prop, a, cfg, results, twins, stability, kani, seed, t0):
                 continue
             errs = fn_errors(R, q)
             kinds = set(e["kind"] for e in errs)
-            if q not in bl:
+            # known findings are matched per failing site (the flagged clause / statement), not per function
+            kf = [k for k in known if k[0] == ob]
+            defin = [e for e in errs if e["kind"] == "definite"]
+            matched = [e for e in defin if any(k[2] is None or k[2] == e.get("site") for k in kf)]
+            unmatched = [e for e in defin if e not in matched]
+            partial = set(ub.get("partial", {}).get(q, []))
+            if a.rebaseline and kf and defin and not unmatched and kinds == {"definite"}:
+                new_base[u].setdefault("partial", {})[q] = sorted(set(e.get("site") for e in defin))
+                partial = set(new_base[u]["partial"][q])
+            if q not in bl and q not in ub.get("partial", {}) and not (a.rebaseline and q in new_base[u].get("partial", {})):
                 undecided.append("%s: fails but was never discharged on the unchanged tree (needs contract work)" % ob)
                 continue
             if "definite" not in kinds:
                 undecided.append("%s: failed without a definite verifier answer (%s)" %
                                  (ob, ", ".join(sorted(set(e["msg"] for e in errs))) or "no diagnostic"))
                 continue
-            hit = [k for k in known if k[0] == ob]
-            if hit:
-                known_hits.append((ob, hit[0][1]))
-                continue
+            if kf and matched:
+                for k in kf:
+                    if any(k[2] is None or k[2] == e.get("site") for e in matched):
+                        known_hits.append((ob, k[1]))
+            if not unmatched:
+                if kf and matched:
+                    # exactly the listed finding(s) and nothing else: neither discharged nor a new violation
+                    obligations -= 1
+                    continue
+            errs = unmatched if unmatched else errs
             violations.append({"obligation": ob, "unit": u, "q": q, "errors": errs, "auto_stubs": getattr(R, "auto_stubs", []),
                                "repo": ("%s:%d-%d" % (io.file, io.repo_lines[0], io.repo_lines[1])) if io else None,
                                "gen": R.gen_path})
@@ -285,7 +319,7 @@ def conclude(prop, a, cfg, results, twins, stability, kani, seed, t0):
             "vacuity_guard": {"twins_with_ensures_false": vac_total, "twins_rejected_by_verifier": vac_failed},
             "stability_runs": stab_runs,
             "undecided": undecided,
-            "known_findings_hit": [k[0] for k in known_hits],
+            "known_findings_hit": sorted(set(k[0] + " " + k[1] for k in known_hits)),
         },
         "assumptions": cfg.get("assumptions", []),
         "wall_s": round(wall, 2),
@@ -296,7 +330,7 @@ def conclude(prop, a, cfg, results, twins, stability, kani, seed, t0):
         json.dump(ev, f, indent=1)
         f.write("\n")
 
-    for ob, what in known_hits:
+    for ob, what in sorted(set(known_hits)):
         print("KNOWN-FINDING: property=%s %s %s" % (prop, ob, what))
     if violations:
         for v, (path, found) in zip(violations, replay_paths):
